@@ -225,6 +225,10 @@ func GenC12(seed, run uint64, ok CompileOK) *Scenario {
 	// every expression gets its relations checked at least once, from the root
 	// and from one random node
 	for i := range s.Exprs {
+		for k := 0; k < 2; k++ {
+			d := r.Intn(len(s.Docs))
+			s.Steps = append(s.Steps, Step{Op: "rel", E: i, D: d, C: ctxFor(r, s.Docs, d)})
+		}
 		s.Steps = append(s.Steps, Step{Op: "rel", E: i, D: r.Intn(len(s.Docs)), C: 0})
 		d := r.Intn(len(s.Docs))
 		s.Steps = append(s.Steps, Step{Op: "rel", E: i, D: d, C: ctxFor(r, s.Docs, d)})
@@ -479,6 +483,9 @@ func GenC05(seed, run uint64, ok CompileOK) *Scenario {
 				st.N = r.Intn(2)
 			case 3:
 				st.Op = "mustbad"
+			}
+			if s.Cfg.Faults && st.Op != "mustbad" && r.Chance(1, 10) {
+				st.Crash = r.Range(1, 30) // this operation's navigator fails half-way; the others must not notice
 			}
 			ops = append(ops, st)
 		}
